@@ -264,6 +264,46 @@ def prune (cl clv : Nat → List Nat) (s : St) (v : Nat) : Except Err St :=
   | some e => .error e
   | none => .ok (pruneSt clv s v)
 
+/-! ### the restriction under which finalized roots stay readable
+
+The lone-node rule of `Finalize` and the lone-root rule of `Prune` only know what each root put or
+removed in its own version, not what it inherits or shares.  The three predicates below say, in
+terms of that bookkeeping, when a step deletes nothing a reported root needs; `badger_readable_inv_partial`
+(OasisProofs/Props/C06.lean) proves that histories whose steps satisfy them keep every reported root
+readable, and dbdrv classifies every generated history by them: the known findings D1 / D3 / D5
+are exactly the histories outside. -/
+
+/-- Versions that have (or had) roots metadata. -/
+def metaVersions (s : St) : List Nat := s.rmetaL.map (·.1)
+
+/-- A reader at timestamp `w` sees an entry of `n` written after timestamp `v`: a tombstone written
+at `v` cannot hide it. -/
+def shielded (s : St) (n v w : Nat) : Bool :=
+  match s.node.get n w with
+  | some (ts, _) => decide (v < ts)
+  | none => false
+
+/-- What the tree hands to a batch that creates a root: every node of the new tree is put by the
+batch or already visible at the new version. -/
+def commitSafe (cl : Nat → List Nat) (s : St) (new : Root) (added : List Nat) : Bool :=
+  new.hash == 0 || (cl new.hash).all (fun n => added.contains n || s.node.live n new.ver)
+
+/-- `Finalize(v)` deletes no node of a root it keeps (in particular: no discarded candidate re-put
+a node a kept root inherits — D3 —, no kept root removed a node another kept root needs — D5),
+nor an unshielded node of a root of a later version. -/
+def finalizeSafe (cl : Nat → List Nat) (s : St) (v : Nat) (chosen : List Root) : Bool :=
+  let p := finPlan s v (chosenTH chosen)
+  p.keep.all (fun e => e.1.2 == 0 || (cl e.1.2).all (fun n => !p.dels.contains n)) &&
+  (metaVersions s).all (fun w => decide (w ≤ v) ||
+    (s.rmeta w).all (fun e => e.1.2 == 0 || (cl e.1.2).all (fun n => !p.dels.contains n || shielded s n v w)))
+
+/-- `Prune(v)` deletes no unshielded node of a root of a later version (no lone root shares a node
+created in its version with a root that lives on — D1). -/
+def pruneSafe (cl clv : Nat → List Nat) (s : St) (v : Nat) : Bool :=
+  (metaVersions s).all (fun w => decide (w ≤ v) ||
+    (s.rmeta w).all (fun e => e.1.2 == 0 ||
+      (cl e.1.2).all (fun n => !(pruneDels clv s v).contains n || shielded s n v w)))
+
 /-! ### observers -/
 
 def hasRoot (s : St) (r : Root) : Bool :=
